@@ -1,11 +1,13 @@
 (* C05 — global SVD and pseudoinverse of a tensor train match the matrix ones.
    Property theorems only.  Any order, mode sizes, ranks, split index; R any commutative ring with
    involution (the pseudoinverse statement needs the reciprocals s' of the singular values).
-   The classical facts "singular values are unique" and "the four Penrose equations determine A^+"
+   C05_singular_values: the returned s_q^2 are eigenvalues of both Gram matrices of the unfolding (with the returned
+   factors as eigenvectors), i.e. the s_q are singular values of the unfolding.
+   The classical facts "the multiset of singular values is unique" and "the four Penrose equations determine A^+"
    are relied upon, not re-proved here. *)
 From Coq Require Import ZArith List Lia Arith.
 Import ListNotations.
-Require Import Ring Sums Matrix Core Chain Sweep Structure SweepProof StructProof TensordotProof GlobalSVD GsvdProof.
+Require Import Ring Sums Matrix Core Chain Sweep Structure SweepProof StructProof TensordotProof GlobalSVD GsvdProof SingValProof.
 Open Scope cr_scope.
 
 (* 1. the left part u (left-orthonormalised cores 0..index-2 followed by the U factor) has
@@ -54,6 +56,23 @@ Proof.
   - exact (penrose4 m k Um Vm s s' HU Hs j j').
 Qed.
 Print Assumptions C05_penrose.
+
+(* 5. the returned values are singular values of the unfolding: with A = U S V (C05_reconstruct), U^H U = I,
+      V V^H = I and real s, every s_q^2 is an eigenvalue of A^H A with eigenvector conj(V[q,:]) and of A A^H with
+      eigenvector U[:,q] *)
+Theorem C05_singular_values (R : cring) (m n k : nat) (Um Vm : M R) (s : nat -> R) q :
+  (forall p q, (p < k)%nat -> (q < k)%nat -> sum m (fun i => cconj R (Um i p) * Um i q) = delta p q) ->
+  (forall p q, (p < k)%nat -> (q < k)%nat -> sum n (fun j => Vm p j * cconj R (Vm q j)) = delta p q) ->
+  (forall p, (p < k)%nat -> cconj R (s p) = s p) -> (q < k)%nat ->
+  let A := Amat k Um Vm s in
+  (forall j', sum n (fun j => sum m (fun i => cconj R (A i j') * A i j) * cconj R (Vm q j)) = s q * s q * cconj R (Vm q j')) /\
+  (forall i, sum m (fun i' => sum n (fun j => A i j * cconj R (A i' j)) * Um i' q) = s q * s q * Um i q).
+Proof.
+  intros HU HV Hs Hq A. split; intros.
+  - exact (right_singular m n k Um Vm s HU HV Hs q j' Hq).
+  - exact (left_singular m n k Um Vm s HU HV Hs q i Hq).
+Qed.
+Print Assumptions C05_singular_values.
 
 (* non-vacuity: a complex unitary 1x1 factorisation meets the hypotheses of C05_penrose *)
 Example ex_penrose_hyps :
